@@ -91,11 +91,11 @@ conf() {
     C01) Q=40   T=600 ;;
     C02) Q=35   T=500 ;;
     C03) Q=150  T=2000 ;;
-    C04) Q=60   T=800 ;;
+    C04) Q=50   T=700 ;;
     C05) Q=80   T=1000 ;;
     C06) Q=150  T=2000 ;;
     C07) Q=120  T=1500 ;;
-    C08) Q=60   T=800 ;;
+    C08) Q=40   T=600 ;;
     C09) Q=50   T=600 ;;
     C10) Q=15   T=300 ;;
     C11) Q=6    T=150 ;;
